@@ -1,6 +1,7 @@
 package clip
 
 import (
+	"sync/atomic"
 	"context"
 	"fmt"
 	"strings"
@@ -42,6 +43,7 @@ type lres struct {
 	val      string
 	panicked bool
 	again    func() string // updater entries: reads the updater once more
+	builds   *atomic.Int32 // updater entries: how often the builder ran
 }
 
 type applyTarget struct {
